@@ -302,6 +302,11 @@ def project_join(log):
                             lines.append("tExit")
                         t_tid = ev["tid"]
                         lines.append("tFetchOr %d" % (ev["cur"] & 1))
+                elif name == tname and off == o_req and op == "fand" and (ev["a"] & 1) == 0 and (ev["cur"] & 1) == 1:
+                    # the JOIN bit of the request word is a one-way hand-shake flag for the life of the descriptor (whoever
+                    # finds it set relies on the other party): clearing it is no event of Model.Join
+                    lines.append("reqJoinCleared")
+                    done = True        # (reported even if this join never returns)
                 elif name == tname and off == o_link:
                     if op == "store" and ev["a"] != 0 and in_join:
                         lines.append("jStoreLink")
